@@ -578,5 +578,12 @@ def main(argv=None):
         f"distinct_nontrivial={len(agg['nontrivial'])} wall={wall:.1f}s "
         f"budget_exhausted={agg['budget_exhausted']} evidence={path}"
     )
-    print("labels: " + ", ".join(f"{k}={v}" for k, v in top))
+    try:
+        print("labels: " + ", ".join(f"{k}={v}" for k, v in top))
+        sys.stdout.flush()
+    except BrokenPipeError:  # the reader closed the pipe after the OK line: still a pass
+        try:
+            sys.stdout = open(os.devnull, "w")
+        except OSError:
+            pass
     return 0
